@@ -852,6 +852,10 @@ Varable failures: {var_failed}
             nlayb = newlayf.variables['lay_bounds']
             outf.VGLVLS = np.append(nlayb[:, 0], nlayb[-1, 1]).view(np.ndarray)
         outf.updatemeta()
+        if 'TSTEP' in kwds:
+            # time flags are not data: a function applied along TSTEP must
+            # not be applied to them; regenerate them from SDATE/STIME/TSTEP
+            outf.updatetflag(overwrite=True)
         return outf
 
     def eval(self, *args, **kwds):
